@@ -3,12 +3,18 @@ CONSTANTS
   Moons = {"m1", "m2", "m3"}
   NVals = 2
   MaxSteps = 0
+  AllowReAdd = FALSE
+  MaxSlots = 3
 VIEW view
 INVARIANT TypeOK
+INVARIANT StorageAligned
+INVARIANT TablesPointHome
 INVARIANT NoDuplicates
+INVARIANT LookupAgree
 INVARIANT RaiserAdded
 INVARIANT NothingForStrangers
 PROPERTY IndexStable
 PROPERTY Isolation
 PROPERTY PointerOnly
+PROPERTY ClearAllClearsInstances
 CHECK_DEADLOCK FALSE
